@@ -405,9 +405,28 @@ def run(ctx, col: Collector):
         if not srcp:
             raise Unrecognised('__new__ has no source parameter', new.node)
         p = srcp[0]
+        from ..inline import inlined_info
+        new = inlined_info(idx, new, depth=2, keep={'remove_bom', 'parse', 'parse_file'})
         paths = function_paths(new.node, unroll=1)
         accepted: Set[str] = set()
         fall = 0
+        # "no source given" is exactly `source is None`: a truthiness test would treat the empty document '' (and any falsy object) as "no source"
+        n_bare = 0
+        for path in paths:
+            last = path[-1]
+            if last.kind == 'return' and last.node is not None and last.node.value is not None and '__new__' in norm(last.node.value):
+                n_bare += 1
+                lits = [c for ev in path if ev.kind == 'test' for c in conjuncts(term(ev.node, ev.outcome))]
+                if ('none', p) in lits:
+                    col.ok('C12-types', '__new__:no-source-is-None', 'the bare factory object is returned only when the source is None', node=last.node, file=new.file)
+                elif ('not', ('truthy', p)) in lits:
+                    col.bad('C12-types', '__new__:no-source-is-None', f'__new__ returns the bare factory object whenever `{p}` is falsy: PyDBML(\'\') gives a parser object while '
+                            f'PyDBML.parse(\'\') gives an empty Database, and falsy objects of unsupported types are not refused with TypeError', node=last.node, file=new.file)
+                else:
+                    col.unk('C12-types', '__new__:no-source-is-None', f'the test under which __new__ returns the bare factory object is not recognised ({lits})',
+                            node=last.node, file=new.file)
+        if n_bare == 0:
+            col.unk('C12-types', '__new__:no-source-is-None', '__new__ has no path that returns the bare factory object (super().__new__(cls))', node=new.node, file=new.file)
         for path in paths:
             ts = [term(ev.node, ev.outcome) for ev in path if ev.kind == 'test']
             lits = [c for t in ts for c in conjuncts(t)]
@@ -484,7 +503,8 @@ def run(ctx, col: Collector):
             v = last.node.value
             is_super = isinstance(v, ast.Call) and isinstance(v.func, ast.Attribute) and v.func.attr == '__new__'
             lits = [c for ev in path if ev.kind == 'test' for c in conjuncts(term(ev.node, ev.outcome))]
-            has_source = any(c[0] == 'isinstance' for c in lits)
+            srcp_ = [a.arg for a in new.node.args.args if a.arg != 'cls']
+            has_source = any(c[0] == 'isinstance' for c in lits) or (bool(srcp_) and (('not', ('none', srcp_[0])) in lits or ('truthy', srcp_[0]) in lits))
             if has_source:
                 ok = isinstance(v, ast.Call) and isinstance(v.func, ast.Attribute) and v.func.attr in ('parse', 'parse_file') \
                     and isinstance(v.func.value, ast.Name) and v.func.value.id in ('cls', 'PyDBML')
